@@ -14,6 +14,9 @@ if [ -n "$DEMO" ]; then
   PKG=$(grep -m1 "^package" $DEMO | awk '{print $2}')
   DIR=tests; [ "$PKG" = cmd ] && DIR=cmd
   grep -q "demo.*cmd/\|to \`cmd/" $O/README.md && grep -q "^package cmd" $DEMO && DIR=cmd
+  # the README says where the demonstration goes: "cp .../demo_test.go <dir>/..."
+  D2=$(grep -o "cp [^ ]*demo[^ ]*_test.go  *[a-z/]*/" $O/README.md | head -1 | awk '{print $3}' | sed 's#/$##')
+  [ -n "$D2" ] && [ -d "$D2" ] && DIR=$D2
   cp $DEMO $DIR/zz_seed_demo_test.go
   NAMES=$(grep -o "^func Test[A-Za-z0-9_]*" $DEMO | sed 's/func //' | paste -sd'|')
   go test -vet=off -count=1 -run "^($NAMES)\$" ./$DIR/ > $O/confirm-demo-with.log 2>&1; DW=$?
